@@ -257,6 +257,13 @@ def C10(ctx):
         ev["placement::place_on_matrix_data"] = "C01.R5"
     if d_il:
         ev["polynomials::structure"] = "C02.R4"
+    # lookup functions folded over their whole (version, level) domain by the table rules of this run
+    if lay and len(lay) == 160:
+        ev["hardcode::ecc_to_groups"] = "C02.T1 (160 cells)"
+    if dcw and len(dcw) == 160:
+        ev["hardcode::data_codewords"] = "C02.T2 (160 cells)"
+    if deg and len(deg) == 160:
+        ev["hardcode::get_polynomial"] = "C02.T4/C07.T2 (160 cells)"
     x("c10_r1", ctx, f, ev)
     E.panic_inventory(ctx, f, ["qr::QRBuilder::build"], "build")
     return dict(
